@@ -5,6 +5,7 @@ mod explore;
 mod nursery;
 mod oracles;
 mod pipelines;
+mod threaded;
 mod world;
 mod worlds;
 
@@ -145,7 +146,7 @@ fn silent_panics() {
 fn write_replay(
     args: &Args,
     id: &str,
-    t: &WorldTarget,
+    t: &dyn Target,
     f: &Found,
     ex: &exec::Exec,
 ) -> PathBuf {
@@ -153,7 +154,7 @@ fn write_replay(
     let _ = std::fs::create_dir_all(&dir);
     let mut h = std::collections::hash_map::DefaultHasher::new();
     use std::hash::{Hash, Hasher};
-    (id, &t.spec.name, &f.script, &f.viol.sig).hash(&mut h);
+    (id, &t.name(), &f.script, &f.viol.sig).hash(&mut h);
     let path = dir.join(format!("{}-{:016x}.json", id, h.finish()));
     let choices: Vec<Value> = ex
         .choices
@@ -163,7 +164,7 @@ fn write_replay(
         .collect();
     let v = json!({
         "property": id,
-        "world": t.spec.name,
+        "world": t.name(),
         "tier": tier_name(args.tier),
         "clause": f.viol.clause,
         "signature": f.viol.sig,
@@ -184,8 +185,7 @@ fn worker_args(args: &Args) -> Vec<String> {
 }
 
 fn run_worker(args: &Args) -> i32 {
-    let Some(ts) = targets_for(&args.id, args.tier) else { return 2 };
-    let targets: Vec<Box<dyn Target>> = ts.into_iter().map(|t| Box::new(t) as Box<dyn Target>).collect();
+    let Some(targets) = targets_for(&args.id, args.tier) else { return 2 };
     worker_loop(&targets, 1_500_000);
     0
 }
@@ -211,21 +211,22 @@ fn run_check(args: &Args) -> i32 {
     let mut samples: Vec<Value> = vec![];
     for (widx, target) in targets.iter().enumerate() {
         if let Some(w) = &args.only_world {
-            if !target.spec.name.contains(w.as_str()) {
+            if !target.name().contains(w.as_str()) {
                 continue;
             }
         }
         let left = deadline.saturating_duration_since(Instant::now());
         if left.is_zero() {
             total.capped = true;
-            machinery = Some(format!("wall-clock cap hit before world {}", target.spec.name));
+            machinery = Some(format!("wall-clock cap hit before world {}", target.name()));
             break;
         }
+        let target: &dyn Target = &**target;
         let st = explore(target, widx, &mut pool, left, samples.len() < 3);
         if args.verbose {
             eprintln!(
                 "{:<44} execs={:>10} states={:>11} outcomes={:>7} viol_execs={:>8} sigs={} {:.1}s",
-                target.spec.name,
+                target.name(),
                 st.execs,
                 st.states,
                 st.outcomes.len(),
@@ -235,12 +236,12 @@ fn run_check(args: &Args) -> i32 {
             );
         }
         per_world.push(json!({
-            "world": target.spec.name,
+            "world": target.name(),
             "executions": st.execs,
             "states": st.states,
             "distinct_outcomes": st.outcomes.len(),
             "distinct_nontrivial": st.nontrivial.len(),
-            "E": target.spec.cfg.e, "D": target.spec.cfg.d,
+            "E": target.bounds().0, "D_or_preemptions": if target.bounds().1 == u32::MAX { json!("unbounded") } else { json!(target.bounds().1) },
             "max_choice_points": st.max_choices,
             "max_deviations_used": st.max_devs,
             "violating_executions": st.violating_execs,
@@ -250,11 +251,11 @@ fn run_check(args: &Args) -> i32 {
             machinery = Some(m.clone());
         }
         if st.capped {
-            machinery = Some(format!("wall-clock cap hit inside world {}", target.spec.name));
+            machinery = Some(format!("wall-clock cap hit inside world {}", target.name()));
         }
         for s in st.samples.iter() {
             if samples.len() < 3 {
-                samples.push(json!({"world": target.spec.name, "history": s}));
+                samples.push(json!({"world": target.name(), "history": s}));
             }
         }
         let mut founds: Vec<&Found> = st.found.values().collect();
@@ -270,11 +271,11 @@ fn run_check(args: &Args) -> i32 {
             let r1 = replay(target, &f.script, &f.script_n);
             let r2 = replay(target, &f.script, &f.script_n);
             if r1.trace != r2.trace || r1.fault != r2.fault {
-                machinery = Some(format!("replay of a violation in {} is not deterministic", target.spec.name));
+                machinery = Some(format!("replay of a violation in {} is not deterministic", target.name()));
                 continue;
             }
             if matches!(r1.fault, Some(exec::Fault::Nondet(_)) | Some(exec::Fault::Internal(_))) {
-                machinery = Some(format!("replay fault in {}: {:?}", target.spec.name, r1.fault));
+                machinery = Some(format!("replay fault in {}: {:?}", target.name(), r1.fault));
                 continue;
             }
             let again = target.check(&r1);
@@ -282,13 +283,13 @@ fn run_check(args: &Args) -> i32 {
                 machinery = Some(format!(
                     "violation {} in {} did not reproduce on replay (got {:?})",
                     f.viol.sig,
-                    target.spec.name,
+                    target.name(),
                     again.map(|v| v.sig)
                 ));
                 continue;
             }
             let path = write_replay(args, id, target, f, &r1);
-            new_viol.push((path, format!("{} [{}] {}", target.spec.name, f.viol.sig, f.viol.detail)));
+            new_viol.push((path, format!("{} [{}] {}", target.name(), f.viol.sig, f.viol.detail)));
         }
         let mut st2 = st;
         st2.found.clear();
@@ -371,13 +372,12 @@ fn run_replay(args: &Args) -> i32 {
     let wname = v["world"].as_str().unwrap().to_string();
     let script: Vec<u16> = v["script"].as_array().unwrap().iter().map(|x| x.as_u64().unwrap() as u16).collect();
     let script_n: Vec<u16> = v["script_n"].as_array().unwrap().iter().map(|x| x.as_u64().unwrap() as u16).collect();
-    let mut target = None;
+    let mut target: Option<Box<dyn Target>> = None;
     for tier in [Tier::Quick, Tier::Thorough] {
-        if let Some(def) = check_def(&id, tier) {
-            for spec in def.worlds {
-                if spec.name == wname {
-                    target = Some(WorldTarget { spec, oracle: def.oracle, digest: false });
-                    break;
+        if let Some(ts) = targets_for(&id, tier) {
+            for t in ts {
+                if t.name() == wname && target.is_none() {
+                    target = Some(t);
                 }
             }
         }
@@ -389,7 +389,8 @@ fn run_replay(args: &Args) -> i32 {
         eprintln!("world {wname} not found for {id}");
         return 2;
     };
-    let ex = replay(&target, &script, &script_n);
+    let target: &dyn Target = &*target;
+    let ex = replay(target, &script, &script_n);
     for (i, c) in ex.choices.iter().enumerate().take(script.len()) {
         println!("choice {i}: [{}/{}] {}", c.pick, c.n, exec::render_choice(&ex, c));
     }
@@ -418,6 +419,7 @@ fn run_replay(args: &Args) -> i32 {
 fn main() {
     let args = parse_args();
     silent_panics();
+    threaded::install_hook();
     let code = match args.cmd.as_str() {
         "check" => {
             if args.replay.is_some() {
